@@ -420,6 +420,16 @@ def sym_env(events, upto=None):
             env[t.id] = v
           else:
             env.pop(t.id, None)
+    elif e.kind == 'stmt' and isinstance(e.node, ast.AugAssign) and isinstance(e.node.target, ast.Name):
+      nm = e.node.target.id
+      old = env.get(nm, ast.Name(id=nm, ctx=ast.Load()))
+      v = ast.BinOp(left=_copy.deepcopy(old), op=e.node.op, right=sym_resolve(e.node.value, env))
+      ast.copy_location(v, e.node)
+      ast.fix_missing_locations(v)
+      if _size(v) <= 80:
+        env[nm] = v
+      else:
+        env.pop(nm, None)
     elif e.kind in ('stmt', 'for_iter', 'with_enter'):
       for w in written_names(e.node):
         env.pop(w, None)
@@ -454,7 +464,9 @@ def _alias_facts(node, truth, env, out, depth=0):
 
 def FACTS(events):
   """Idiom-closed set of (text, truth) facts of the branch conditions on a path prefix,
-  including the facts implied through local boolean aliases (flag = <test>; if flag: ...)."""
+  including the facts implied through local aliases (flag = <test>; if flag: ... and
+  x = <expr>; if x > 0: ...): every condition is also emitted with its local names
+  substituted by the expressions assigned to them on the path."""
   from .paths import written_names
   out = []
   env = {}
@@ -510,3 +522,26 @@ def RAW(events):
 
 def RAW_I(events):
   return [(unparse(e.node).replace(' ', ''), e.info, i) for i, e in enumerate(events) if e.kind == 'cond']
+
+
+
+def has_fact(events, upto, text, truth=True):
+  """Does the path prefix establish `text` (python expression) with the given truth, either
+  literally or after substituting local aliases on both sides?"""
+  fs = FACTS(events if upto is None else events[:upto])
+  t = text.replace(' ', '')
+  if (t, truth) in fs:
+    return True
+  try:
+    node = ast.parse(text, mode='eval').body
+  except SyntaxError:
+    return False
+  res = sym_resolve(node, sym_env(events, upto))
+  for c, tr in equiv_facts(res, truth):
+    if (c, tr) in fs:
+      return True
+  return False
+
+
+def resolved_text(events, upto, expr):
+  return unparse(sym_resolve(expr, sym_env(events, upto))).replace(' ', '')
